@@ -494,36 +494,43 @@ def run_lines(exe, lines, timeout=120, args=(), env=None, batch=2000, per_case_t
             s += " in " + loc.group(1) + " " + os.path.basename(loc.group(2))
         return "CRASH " + s.replace("\n", " ")[:300]
 
-    def go(lo, hi):
-        if lo >= hi:
-            return
-        chunk = lines[lo:hi]
-        to = timeout if hi - lo > 1 else per_case_timeout
-        rc, out, err = _run_once(exe, chunk, to, args, env)
-        out = [o for o in out if o != ""] if False else out
+    crashes = [0]
+    MAX_ISOLATED = 150
+
+    def one(k):
+        rc, out, err = _run_once(exe, [lines[k]], per_case_timeout, args, env)
         if out and out[-1] == "":
             out = out[:-1]
-        if rc == 0 and len(out) == len(chunk):
-            results[lo:hi] = out
-            return
-        if hi - lo == 1:
-            results[lo] = summarise(rc, err) if rc != 0 else "CRASH wrong-output-count %d" % len(out)
-            return
-        # drivers print one flushed line per case: the complete lines printed before the process died / hung are
-        # the results of the first cases; the next case is the suspect, it is run alone (short time limit), and the
-        # rest of the chunk is run again.  (An incomplete last line is dropped: stdout was cut in the middle.)
-        done = out[:-1] if (out and rc == -999) else out
-        if rc != -999 and out and hi - lo > len(out):
-            done = out           # a crash report goes to stderr; stdout lines are whole
-        n = min(len(done), hi - lo - 1)
-        if n > 0 or rc != 0:
+        if rc == 0 and len(out) == 1:
+            results[k] = out[0]
+        else:
+            results[k] = summarise(rc, err) if rc != 0 else "CRASH wrong-output-count %d" % len(out)
+
+    def go(lo, hi):
+        # drivers print one flushed line per case: the complete lines printed before the process died / hung are the
+        # results of the first cases of the chunk; the next case is the suspect, it is run alone (short time limit), and
+        # the rest of the chunk is run again.  Linear in the number of crashing cases, no recursion.
+        while lo < hi:
+            if hi - lo == 1:
+                one(lo)
+                return
+            rc, out, err = _run_once(exe, lines[lo:hi], timeout, args, env)
+            if out and out[-1] == "" and rc != -999:
+                out = out[:-1]
+            if rc == 0 and len(out) == hi - lo:
+                results[lo:hi] = out
+                return
+            done = out[:-1] if rc == -999 else out      # a time-out may cut the last line in the middle
+            n = min(len(done), hi - lo - 1)
             results[lo:lo + n] = done[:n]
-            go(lo + n, lo + n + 1)
-            go(lo + n + 1, hi)
-            return
-        mid = (lo + hi) // 2
-        go(lo, mid)
-        go(mid, hi)
+            one(lo + n)
+            lo = lo + n + 1
+            crashes[0] += 1
+            if crashes[0] >= MAX_ISOLATED and lo < hi:
+                # a mass failure: the verdict is settled, isolating thousands more crashing cases only costs time
+                for k in range(lo, hi):
+                    results[k] = "CRASH not-run (more than %d cases of this shard already crashed)" % MAX_ISOLATED
+                return
 
     i = 0
     while i < len(lines):
